@@ -6,7 +6,7 @@ import re
 
 from typing import Any
 
-from ..charclass import EITHER, FACTS, CharInterp, S, bad_identifier_chars, members
+from ..charclass import EITHER, FACTS, CharInterp, I, L, S, bad_identifier_chars, join_s, members
 from ..astutil import Locals, anon, call_name, cfg_of, constructs_error, local_names, norm, region, short, stmt_of
 from ..cfg import walk_own
 from ..core import PKG, AnalysisError, Report
@@ -42,7 +42,9 @@ def run(rep: Report, ctx: Any) -> str:
     rep.rule("R09.1", "for all input strings: each return path of the name constructors and each enum member name is a "
                       "valid, non-keyword identifier (first in ID_Start, rest in ID_Continue, non-empty).  The three conditions are "
                       "separate obligations per path (<path> character classes, <path>::non-empty, <path>::not-reserved): a known "
-                      "defect of one kind never stands for a defect of another kind on the same path")
+                      "defect of one kind never stands for a defect of another kind on the same path.  The enum member names are decided for all "
+                      "values of every parameter of EnumProperty.values_from_list that some call supplies (a list of strings, a string, "
+                      "an int, as annotated: arbitrary ones), not only for the member values")
     rep.rule("R09.2", "fields annotated PythonIdentifier / ClassName only ever receive results of those constructors; every template "
                       "hole that prints such a field carries constructor results only; every identifier-required position of the "
                       "generated code (assignment / annotation target, keyword, parameter, attribute, def / class / import / for name) "
@@ -78,7 +80,9 @@ def run(rep: Report, ctx: Any) -> str:
     # enum member names
     f = ix.func("EnumProperty.values_from_list")
     ch.stores = []
-    ch.run_function(f, {"values": EITHER, "class_info": None})
+    # every parameter ranges over everything its annotation admits (lists of strings, strings, ints: arbitrary ones); a parameter
+    # whose annotation says nothing the interpreter can use stays unbound, and reading it for a name ends in exit 2, not in a pass
+    ch.run_function(f, {"class_info": ("object",), **abstract_arguments(ch, f, call_sites(ix)), "values": EITHER})
     # the member table is whatever the function returns
     returned = {norm(r.value) for r in ast.walk(f.node) if isinstance(r, ast.Return) and r.value is not None}
     stores = [s for s in ch.stores if s[0] in returned]
@@ -193,6 +197,34 @@ def validity_obligations(rep: Report, t: Any, key: str, s: S, what: str, where: 
                   where=where, lhs=s.describe(t), rhs="not a keyword, not in RESERVED_WORDS", path=path)
 
 
+# ---- the arguments of a function "for all inputs" ---------------------------------------------------------------------------------
+def abstract_arguments(ch: CharInterp, f: Any, sites: list[tuple[ast.Call, Any, Any]]) -> dict[str, Any]:
+    """what each annotated parameter of f can be, as far as the annotation says it in terms the character interpreter has: a list of
+    strings (whatever else it may be - None, absent - counts as the empty list), a string, an int.  Strings are arbitrary.  A parameter
+    with a default that no call in the package supplies is not listed: it is its default."""
+    out: dict[str, Any] = {}
+    calls = [c for c, _h, m in sites if _is_call_of(c, f, m)]
+    for a in f.params:
+        if a.annotation is None:
+            continue
+        if _default_of(f.node, a.arg) is not None and all(_supplied(c, f, a.arg) is None for c in calls):
+            continue
+        ann = a.annotation
+        if isinstance(ann, ast.Constant) and isinstance(ann.value, str):
+            try:
+                ann = ast.parse(ann.value, mode="eval").body
+            except SyntaxError:
+                continue
+        names = {n.id if isinstance(n, ast.Name) else n.attr for n in ast.walk(ann) if isinstance(n, (ast.Name, ast.Attribute))}
+        names -= {"Optional", "Union", "None", "typing", "t"}
+        seqs = names & {"list", "List", "Sequence", "Iterable", "tuple", "Tuple", "Collection"}
+        if names - seqs == {"str"}:
+            out[a.arg] = L(ch.TOP, True) if seqs else ch.TOP
+        elif names == {"int"}:
+            out[a.arg] = I("any")
+    return out
+
+
 # ---- regular-expression calls with more arguments than the engine reads ----------------------------------------------------------
 _RE_SIGNATURES = {"re.sub": ("pattern", "repl", "string", "count", "flags"), "re.split": ("pattern", "string", "maxsplit", "flags"),
                   "re.findall": ("pattern", "string", "flags")}  # the calls the engine models, with their full signatures
@@ -237,15 +269,43 @@ def ascii_pattern(pat: str) -> "str | None":
 
 
 class FlagAwareInterp(CharInterp):
-    """CharInterp reads `re.sub / re.split / re.findall` as (pattern, [replacement,] string) under Unicode matching.  A call that says
+    """The character interpreter with some constructs brought into a form it reads: regular-expression calls with flags / limits
+    (below), `xs or []` as a list-valued expression, the truth of a name bound to None, and a type test of a value an earlier test
+    on the path has already decided.
+    CharInterp reads `re.sub / re.split / re.findall` as (pattern, [replacement,] string) under Unicode matching.  A call that says
     more is rewritten into the call of that form that means the same - flags=re.ASCII by writing the ASCII classes into the pattern,
     flags=0 / re.UNICODE, count=0, maxsplit=0 by leaving them out - and anything else is refused (exit 2): an argument that changes
     what the call computes is never ignored."""
+
+    def ev(self, n: ast.expr, env: dict[str, Any], m: Any) -> Any:
+        # `xs or []` / `xs or ys` of lists is a list again: one of the operands (the engine reads `or` as a condition only)
+        if isinstance(n, ast.BoolOp) and isinstance(n.op, ast.Or):
+            try:
+                vals = [self.ev(v, env, m) for v in n.values]
+            except AnalysisError:
+                vals = []  # (the engine does not evaluate what follows an operand that decides: let it read the expression its way)
+            lists = [v for v in vals if isinstance(v, L)]
+            if lists and all(isinstance(v, L) or v is None or v == ("container",) for v in vals):
+                out = lists[0]
+                for v in lists[1:]:
+                    out = self.join_any(out, v)
+                return L(out.elem if out.head is None else join_s(out.elem, out.head), True)
+        return super().ev(n, env, m)
+
+    def truth(self, n: ast.expr, env: dict[str, Any], m: Any) -> Any:
+        if isinstance(n, ast.Name) and n.id in env and env[n.id] is None:
+            return False  # a name bound to None
+        return super().truth(n, env, m)
 
     def call(self, n: ast.Call, env: dict[str, Any], m: Any) -> Any:
         fn = dotted(n.func)
         if fn in _RE_SIGNATURES and self._callee(fn, m) is None:
             n = self._plain_regex_call(fn, n, m)
+        if fn == "isinstance" and len(n.args) == 2 and isinstance(n.args[0], ast.Name) and dotted(n.args[1]) in ("int", "str"):
+            # a test of something an earlier test on this path has already decided has one outcome: the other branch is not a path
+            v = env.get(n.args[0].id)
+            if isinstance(v, (I, S)):
+                return isinstance(v, I) == (dotted(n.args[1]) == "int")
         return super().call(n, env, m)
 
     def _flag_names(self, e: ast.expr, m: Any, at: str) -> set[str]:
@@ -840,29 +900,69 @@ def _item_attrs(ix: Any, g: Any, exprs: list[ast.AST], P: set[str], depth: int =
     return out, opaque
 
 
-def _denotes_collection(lc: Locals, e: "ast.AST | None", sources: set[str], depth: int = 4) -> bool:
+def _naming_attrs(ix: Any, g: Any, exprs: list[ast.AST], P: set[str], depth: int = 2) -> set[str]:
+    """the attributes of the item (held under the names P in function g) that give the delivered element its name: those read by what
+    is handed on as `name=` in the expressions the element is computed from - there, or in a function of the module the item is handed
+    to as a whole, in what that function's results are computed from"""
+    out: set[str] = set()
+    lc = Locals(g.node)
+    for e in exprs:
+        for n in ast.walk(e):
+            if isinstance(n, ast.keyword) and n.arg == "name":
+                out |= _item_attrs(ix, g, _closure(lc, n.value, P), P)[0]
+            elif isinstance(n, ast.Call) and depth > 0:
+                whole = [a for a in [*n.args, *[k.value for k in n.keywords]] if isinstance(a, ast.Name) and a.id in P]
+                if not whole:
+                    continue
+                last = call_name(n).rsplit(".", 1)[-1]
+                for h in ix.all_functions:
+                    if h.module is not g.module or h.name != last or h is g:
+                        continue
+                    handed = {p_ for p_ in (a.arg for a in h.params) if any(x is _supplied(n, h, p_) for x in whole)}
+                    if not handed:
+                        continue
+                    lh = Locals(h.node)
+                    results = [r.value for s_ in _stmts_of(h.node) for r in walk_own(s_)
+                               if isinstance(r, (ast.Return, ast.Yield, ast.YieldFrom)) and r.value is not None]
+                    out |= _naming_attrs(ix, h, [x for r in results for x in _closure(lh, r, handed)], handed, depth - 1)
+    return out
+
+
+def _denotes_collection(lc: Locals, e: "ast.AST | None", sources: set[str], depth: int = 4, at: "tuple[Any, Any] | None" = None) -> bool:
     """e is one of the fields `sources`, or stands for one: a local bound to it, an entry of a mapping / an element of a display whose
-    values they are, getattr under one of their names"""
+    values they are, getattr under one of their names, the result of a method of the class / a function of the module (`at` = (index,
+    function e is written in)) that returns such a thing"""
     if e is None or depth < 0:
         return False
     if isinstance(e, ast.Attribute):
         return e.attr in sources
     if isinstance(e, ast.Name):
-        return any(_denotes_collection(lc, v, sources, depth - 1) for v in lc.values_of(e.id))
+        return any(_denotes_collection(lc, v, sources, depth - 1, at) for v in lc.values_of(e.id))
     if isinstance(e, (ast.Subscript, ast.Starred)):
-        return _denotes_collection(lc, e.value, sources, depth)
+        return _denotes_collection(lc, e.value, sources, depth, at)
     if isinstance(e, ast.Dict):
-        return any(_denotes_collection(lc, v, sources, depth) for v in e.values)
+        return any(_denotes_collection(lc, v, sources, depth, at) for v in e.values)
     if isinstance(e, (ast.Tuple, ast.List, ast.Set)):
-        return any(_denotes_collection(lc, v, sources, depth) for v in e.elts)
+        return any(_denotes_collection(lc, v, sources, depth, at) for v in e.elts)
     if isinstance(e, ast.IfExp):
-        return _denotes_collection(lc, e.body, sources, depth) or _denotes_collection(lc, e.orelse, sources, depth)
+        return _denotes_collection(lc, e.body, sources, depth, at) or _denotes_collection(lc, e.orelse, sources, depth, at)
     if isinstance(e, ast.Call):
         if isinstance(e.func, ast.Attribute) and e.func.attr in ("get", "setdefault", "pop", "values", "items"):
-            return _denotes_collection(lc, e.func.value, sources, depth)
+            return _denotes_collection(lc, e.func.value, sources, depth, at)
         if call_name(e) == "getattr" and len(e.args) >= 2:
             pats = _strings_of(e.args[1], lc)
             return pats is None or any(re.fullmatch(p_, f) for p_ in pats for f in sources)
+        if at is not None:
+            # the table of collections may be built by a method / helper: what it returns is what the call stands for
+            ix, g = at
+            last = call_name(e).rsplit(".", 1)[-1]
+            cands = [h for h in ix.all_functions if h.module is g.module and h.name == last and h is not g and
+                     (h.cls is None or g.cls is None or h.cls is g.cls or ix.find_method(g.cls, last) is h)]
+            for h in cands:
+                lh = Locals(h.node)
+                for r in _stmts_of(h.node):
+                    if isinstance(r, ast.Return) and _denotes_collection(lh, r.value, sources, depth - 1, (ix, h)):
+                        return True
     return False
 
 
@@ -898,7 +998,7 @@ def _deliveries(ix: Any, g: Any, sources: set[str], sites: list[tuple[ast.Call, 
                 recv, val = n.target, n.value
             if recv is None:
                 continue
-            if _denotes_collection(lc, recv, sources):
+            if _denotes_collection(lc, recv, sources, at=(ix, g)):
                 out.append((g, st, [recv], [val]))
                 continue
             behind = _closure(lc, recv, params)
@@ -910,7 +1010,7 @@ def _deliveries(ix: Any, g: Any, sources: set[str], sites: list[tuple[ast.Call, 
                 env = {p_: e for p_ in params for e in [_supplied(c, g, p_)] if e is not None and e is not _OPAQUE}
                 r_h = [_in_terms_of_caller(e, env) for e in behind]
                 st_h = stmt_of(h.node, c)
-                if st_h is not None and any(_denotes_collection(Locals(h.node), e, sources) for e in r_h):
+                if st_h is not None and any(_denotes_collection(Locals(h.node), e, sources, at=(ix, h)) for e in r_h):
                     out.append((h, st_h, r_h, [_in_terms_of_caller(e, env) for e in _closure(lc, val, params)]))
     return out
 
@@ -948,7 +1048,9 @@ def check_no_silent_loss(rep: Report, ctx: Any, rid: str, sources: set[str]) -> 
                   "and without leaving the function, and (b) depends on the elements collected so far (reads one of the collections, "
                   "through locals, methods, helpers), also reads every attribute of the item that determines its place and its name: "
                   "the attributes read by what selects the collection at the delivery, and those handed on as `name=` of what is "
-                  "delivered.  Leaving an item out on a part of its identity merges two items without a diagnostic")
+                  "delivered (there, or in a helper of the module the item is handed to, in what its result is computed from).  The "
+                  "collections may be reached through a table built in place or returned by a method / helper.  Leaving an item out on "
+                  "a part of its identity merges two items without a diagnostic")
     ep = ix.cls("Endpoint")
     cfgs: dict[str, Any] = {}
     sites = []   # (function, loop, delivering statements, item names)
@@ -974,11 +1076,7 @@ def check_no_silent_loss(rep: Report, ctx: Any, rid: str, sources: set[str]) -> 
             n_fill += 1
             P = _item_names(lc, inner)
             where_to, _ = _item_attrs(ix, g, [x for e in recv for x in _closure(lc, e, P)], P)
-            named: set[str] = set()
-            for e in [x for e in val for x in _closure(lc, e, P)]:
-                for k in ast.walk(e):
-                    if isinstance(k, ast.keyword) and k.arg == "name":
-                        named |= _item_attrs(ix, g, _closure(lc, k.value, P), P)[0]
+            named = _naming_attrs(ix, g, [x for e in val for x in _closure(lc, e, P)], P)
             placed |= where_to
             called |= named
             identity |= where_to | named
